@@ -328,3 +328,22 @@ Proof.
     intros w Hw E. destruct (H3 (fst w) (Hws w Hw)) as [H4 _]. unfold loc in *. rewrite E in H4. lia.
 Qed.
 Print Assumptions C05_construction_copies_input.
+
+(* 13. Non-finite entries (numpy nan / +-inf, None in the model).  is_valid_cpd on a table that may hold
+       them accepts only if EVERY entry is finite (and then the finite table is valid, so C05_valid_iff applies);
+       in particular normalize() of a table with a zero-sum column (0/0) is never valid; and check_model on a
+       network some of whose CPDs hold a non-finite entry accepts only if no node's CPD is one of them (and then
+       the network is accepted by the finite check_model, so C05_check_model_sound and the joint theorems apply). *)
+Theorem C05_valid_implies_finite :
+  (forall oc : ocpd, is_valid_ocpd oc = true ->
+     exists c : cpd, ocpd_finite oc = Some c /\ is_valid_cpd c = true /\
+                     forall k, k < length (vals oc) -> nth k (vals oc) None <> None) /\
+  (forall (c : cpd) j, wf_cpd c -> j < prod (pcards c) -> colsum c j = Q2Qc 0 ->
+     is_valid_ocpd (normalize c) = false) /\
+  (forall b nf, check_model_nf b nf = CM_ok ->
+     check_model b = CM_ok /\
+     forall v c, In v (nodes (bg b)) -> get_cpd b v = Some c -> ~ In (child c) nf).
+Proof.
+  split; [exact valid_ocpd_finite|]. split; [exact normalized_zero_column_invalid|exact check_model_nf_sound].
+Qed.
+Print Assumptions C05_valid_implies_finite.
